@@ -124,10 +124,14 @@ func (a *AggregationProcess) Start() {
 
 func (a *AggregationProcess) Stop() {
 	a.mutex.Lock()
-	for _, worker := range a.workerList {
+	workerList := a.workerList
+	a.mutex.Unlock()
+	// Do not hold the mutex while handing the stop signal to the workers: a worker which
+	// is in the middle of AggregateMsgByFlowKey needs the mutex to finish its message, and
+	// only then gets back to the select statement that receives the stop signal.
+	for _, worker := range workerList {
 		worker.stop()
 	}
-	a.mutex.Unlock()
 	a.stopChan <- true
 }
 
